@@ -444,7 +444,7 @@ fn exec_a(sc: &Scenario, verbose: bool, out: &mut RunOut) {
     // reach of the writer's unusual choices (how often each was actually taken in this scenario)
     for (i, u) in wcfg.used.iter().enumerate() {
         if u.get() > 0 {
-            out.stats.add(&format!("hflag.H{}.taken", i + 1), u.get() as u64);
+            out.stats.add(&format!("writer_hazard.H{}.taken", i + 1), u.get() as u64);
         }
     }
     // value-level encoders (the single-value counterparts of the text route): the text written by
